@@ -26,9 +26,54 @@ const (
 	kStr              // (string key | int payload)
 	kPfx2             // (int, string key | int payload), prefix 2
 	kUnit             // (int16 key | struct{} payload): rows that encode to almost nothing
+	kRLE              // (rleKey): one column whose registered codec run-length encodes, so equal keys encode to well under a byte per row
 )
 
-var kindName = map[kind]string{kInt: "int", kStr: "string", kPfx2: "int+string/prefix2", kUnit: "int16+struct{}"}
+// rleKey is a key type with a user codec (frame.Ops.Encode/Decode), as the
+// frame package documents: a vector is written as (value, run length) pairs.
+type rleKey int32
+
+func init() {
+	frame.RegisterOps(func(s []rleKey) frame.Ops {
+		return frame.Ops{
+			Less:         func(i, j int) bool { return s[i] < s[j] },
+			HashWithSeed: func(i int, seed uint32) uint32 { return uint32(s[i])*2654435761 ^ seed },
+			Encode: func(e frame.Encoder, i, j int) error {
+				var runs []int32
+				for k := i; k < j; k++ {
+					if n := len(runs); n > 0 && runs[n-2] == int32(s[k]) {
+						runs[n-1]++
+					} else {
+						runs = append(runs, int32(s[k]), 1)
+					}
+				}
+				return e.Encode(runs)
+			},
+			Decode: func(d frame.Decoder, i, j int) error {
+				var runs []int32
+				if err := d.Decode(&runs); err != nil {
+					return err
+				}
+				k := i
+				for r := 0; r+1 < len(runs); r += 2 {
+					for c := int32(0); c < runs[r+1]; c++ {
+						if k >= j {
+							return errors.New("rleKey: more values than rows")
+						}
+						s[k] = rleKey(runs[r])
+						k++
+					}
+				}
+				if k != j {
+					return errors.New("rleKey: fewer values than rows")
+				}
+				return nil
+			},
+		}
+	})
+}
+
+var kindName = map[kind]string{kInt: "int", kStr: "string", kPfx2: "int+string/prefix2", kUnit: "int16+struct{}", kRLE: "rle-coded key (custom codec)"}
 
 type row struct{ V, P int }
 
@@ -58,6 +103,8 @@ func typOf(k kind) slicetype.Type {
 		return tdesc{[]reflect.Type{tInt, tStr, tInt}, 2}
 	case kUnit:
 		return tdesc{[]reflect.Type{tInt16, tStruct}, 1}
+	case kRLE:
+		return tdesc{[]reflect.Type{reflect.TypeOf(rleKey(0))}, 1}
 	}
 	panic("kind")
 }
@@ -105,6 +152,12 @@ func buildFrame(k kind, rows []row) frame.Frame {
 			keys[i] = int16(r.V)
 		}
 		return frame.Slices(keys, make([]struct{}, n))
+	case kRLE:
+		keys := make([]rleKey, n)
+		for i, r := range rows {
+			keys[i] = rleKey(r.V)
+		}
+		return frame.Slices(keys)
 	}
 	panic("kind")
 }
@@ -158,6 +211,11 @@ func decodeRows(k kind, f frame.Frame, n int, dst []row) ([]row, bool) {
 		}
 	case kUnit:
 		keys := g.Interface(0).([]int16)
+		for i := 0; i < n; i++ {
+			dst = append(dst, row{int(keys[i]), 0})
+		}
+	case kRLE:
+		keys := g.Interface(0).([]rleKey)
 		for i := 0; i < n; i++ {
 			dst = append(dst, row{int(keys[i]), 0})
 		}
